@@ -509,7 +509,17 @@ def presummary(arr, paths, cmd, opts):
         and not any(dd['deleted'] for dd in loaded['disks'].values())
     cur_blockmax = loaded['blockmax'] if loaded else 0
     psz = [sum(os.path.getsize(f) for f in fs if os.path.exists(f)) for fs in arr.parity_files]
-    d['parity_blocks'] = [s // bs for s in psz]
+    d['parity_disk_blocks'] = [s // bs for s in psz]
+    # what parity_size() reports: the split sizes recorded in the content file when it has them ('Q' records), else the disk
+    rep = []
+    for l in range(arr.np):
+        lv = (loaded or {}).get('levels', {}).get(l)
+        sp = lv['splits'] if lv else []
+        if sp and all(x['size'] is not None for x in sp) and len(sp) == len(arr.parity_files[l]):
+            rep.append(sum(x['size'] for x in sp) // bs)
+        else:
+            rep.append(psz[l] // bs)
+    d['parity_blocks'] = rep
     # parity.c:228-236 / 712-720: with no recorded split size ('P' record) a size that is not a multiple of the block
     # size makes parity_create / parity_open fail
     norec = not loaded or all(any(x['size'] is None for x in lv['splits']) for lv in loaded['levels'].values())
@@ -591,7 +601,7 @@ def pre_tokens(d, arr):
     for e, m, r, rm, ch, z in d['disks']:
         t += [str(e), str(m), str(r), str(rm), str(ch), b(z)]
     t += [b(d['scan_need_write']), str(d['blockmax']), str(d['used'])]
-    t += [''.join(map(b, d['parity_access'])) or '-', ''.join(map(b, d['parity_open'])) or '-', ','.join(map(str, d['parity_blocks'])) or '-',
+    t += [''.join(map(b, d['parity_access'])) or '-', ''.join(map(b, d['parity_open'])) or '-', ','.join(map(str, d['parity_blocks'])) or '-', ','.join(map(str, d['parity_disk_blocks'])) or '-',
           ''.join(map(b, d['parity_resize'])) or '-', ''.join(map(b, d['parity_modified'])) or '-']
     t += [b(d.get('prehash_fail', False)), b(d['sync_work']), b(d.get('sync_errors', False)), b(d['array_empty']),
           str(d.get('scrub_stripes', 0)), b(d.get('scrub_errors', False)), b(d.get('check_errors', False)), b(d['diff'])]
